@@ -10,7 +10,8 @@
 (* one process exclude each other exactly like processes).                 *)
 (*                                                                         *)
 (* Operations: read | write(v) | transform(kind, tok) | hold(mode) with    *)
-(* mode in {"r", "w", "create"} (OpenFile/Edit/Create ... Close) | mutex.  *)
+(* mode in {"r", "w", "create", "wx"} (OpenFile/Edit/Create ... Close; wx =  *)
+(* w while a child process holds a copy of the descriptor) | mutex.        *)
 (* Transform kinds: "append", "grow" (longer), "chop" (shorter), "same".    *)
 (***************************************************************************)
 EXTENDS Naturals, Sequences, FiniteSets, TLC
@@ -46,7 +47,7 @@ Ret(a, res) == /\ hist' = IF Record THEN Append(hist, [a |-> a, op |-> Cur(a).op
                /\ Goto(a, "next")
 Keep == UNCHANGED <<content, exists, holders, mheld, loc>>
 
-WantsEx(o) == o.op \in {"write", "transform"} \/ (o.op = "hold" /\ o.mode \in {"w", "create"})
+WantsEx(o) == o.op \in {"write", "transform"} \/ (o.op = "hold" /\ o.mode \in {"w", "create", "wx"})
 WantsTrunc(o) == o.op = "write" \/ (o.op = "hold" /\ o.mode = "create")
 Mode(o) == IF WantsEx(o) /\ Bug # "WriteShared" THEN "ex" ELSE "sh"
 Compatible(a, m) == IF m = "ex" THEN \A h \in holders : h[1] = a ELSE \A h \in holders : h[2] = "sh" \/ h[1] = a
